@@ -262,6 +262,17 @@ def generate(rng, n, tier="quick"):
                      [DEV, TRKB, INC_A, {"op": "clone", "reg": 0}, WR("L1\nL2{{x}}")]):
             out.append(build([dict(o) for o in hist], "%s-d%03d" % (ID, d)))
             d += 1
+    # directed: turning dev mode off STOPS tracking – a later on-switch does not resume it; registrations made while it is
+    # off are not tracked either; only a new registration under dev mode tracks again
+    OFF = {"op": "set_dev", "reg": 0, "v": False}
+    DEL = {"op": "delete_file", "file": "f1"}
+    for hist in ([DEV, TRK, OFF, WR("F3"), DEV], [DEV, TRK, OFF, DEV, WR("F3")], [DEV, TRK, OFF, DEL, DEV], [DEV, TRK, OFF, DEV, DEL],
+                 [DEV, TRK, OFF, WR("F3"), DEV, OFF, DEV], [DEV, TRK, OFF, DEV, TRK, WR("F3")], [DEV, OFF, TRK, DEV, WR("F3")],
+                 [DEV, TRK, OFF, TRK, DEV, WR("F3")], [DEV, TRK, {"op": "clone", "reg": 0}, OFF, WR("F3"), DEV],
+                 [DEV, TRKB, {"op": "reg_string", "reg": 0, "name": "a", "src": "{{> b}}!"}, OFF, WR("F3"), DEV],
+                 [DEV, TRKB, {"op": "reg_string", "reg": 0, "name": "a", "src": "{{> b}}!"}, OFF, DEL, DEV]):
+        out.append(build([dict(o) for o in hist], "%s-d%03d" % (ID, d)))
+        d += 1
     for j in range(n):
         r = rng.fork(j)
         hist = []
